@@ -17,7 +17,7 @@ add("C03", T_HIST + "differential oracle: merged state vs ops-only twin fed the 
     "Compared states have causally closed knowledge for Orswot/Map/MVReg (operands may hold pending removes in the per-actor-order jobs), arbitrary knowledge for order-free types; Map exemptions MAP-T1/T2/T2b/T3/T5/T6 per key.", "DESIGN.md 3/C03")
 add("C04", T_HIST + "reference model: dot-store specification of an observed-remove add-wins set (stateful/model-based)",
     E + "Every read entry point of the affected replica compared with the specification after every step, causal and per-actor delivery, duplicates, merges, stale merges. Strict: no exemption.",
-    "Trusts the dot-store model (sets of op ids + integer comparisons); u8 members/actors; each actor confined to one replica.", "DESIGN.md 3/C04")
+    "Trusts the dot-store model (sets of op ids + integer comparisons); u8 members/actors (alphabets of 3 and of 16 members); each actor confined to one replica.", "DESIGN.md 3/C04")
 add("C05", T_HIST + "reference model: recursive dot-store specification of Map keys and nested values at depth 1 and 2",
     E + "Keys, nested content at every depth, key witnesses and map clock compared with the specification after every step. Two strict sub-domains (Map<_,Orswot>, Map<_,Map<_,Orswot>> under causal op delivery) have no exemption.",
     "Exemptions per key (model-side triggers): MAP-T2 (MVReg leaves, extras only), MAP-T1 and MAP-T5 (merged lineage).", "DESIGN.md 3/C05")
@@ -38,7 +38,7 @@ add("C10", "bounded-exhaustive enumeration (all clocks over 3-4 actors x counter
     "Clocks are built through the API only; the model is a BTreeMap<actor,u64> with absent = 0.", "DESIGN.md 3/C10")
 add("C11", T_HIST + "reference model: arithmetic over the knowledge set (sum of per-actor maxima, max/min, greatest marker, union)",
     E + "Any delivery order, duplicates, merges, stale merges; value and internal state tree compared after every step; dedicated colliding-marker job for LWWReg's conflict flag.",
-    "Counter totals stay far below u64::MAX; LWWReg markers unique.", "DESIGN.md 3/C11")
+    "One actor's counter total stays below u64::MAX - 2^40 (overflowing it is the caller's error) while sums over actors go beyond 2^64; LWWReg markers unique.", "DESIGN.md 3/C11")
 add("C12", T_HIST + "invariant over the whole history: a single global total order exists (antisymmetric + acyclic 'before' relation across replicas and steps), membership model",
     E + "Delayed causal delivery with 3+ actors inserting into the same gap, duplicates; settle phase; per-replica identifier-order invariant; structured nested-duel generator reaching identifier depth >= 7.",
     "Causal delivery (List's documented contract).", "DESIGN.md 3/C12")
